@@ -161,6 +161,10 @@ def run_history(case, batch, path, ctx, observe_steps):
         for step, op in enumerate(case["ops"]):
             if op[0] == "write":
                 _, vi, vals, src = op
+                if len(written) % 3 == 2:
+                    # records of one type often come from several sources: an equal descriptor OBJECT created anew
+                    n_, fs_ = case["versions"][vi]
+                    descs[vi] = RecordDescriptor(n_, [tuple(f) for f in fs_])
                 rec = descs[vi](*vals, _source=src, _generated=GEN)
                 if vi not in seen:
                     seen.add(vi)
